@@ -15,7 +15,7 @@ let classify_str (o : M.frame M.outcome) data = match o with
   | M.Ok f -> "classify ok " ^ frame_str f ^ data_str (data f)
 
 let op_classify t =
-  let rt = t.(1) = "1" in
+  let rt = t.(1) <> "0" in
   let a = ints_of_hex t.(2) in
   let rd = rd_strict_arr a in
   let len = z_of_int (Array.length a) in
@@ -43,7 +43,7 @@ let wpa_str (o : M.wpa_data M.outcome) = match o with
 let fault_str r f = match r with M.Done v -> f v | M.Fault (_, z) -> "FAULT@" ^ zs z | M.OutOfFuel -> "OUTOFFUEL"
 
 let op_eapol t =
-  let rt = t.(1) = "1" in
+  let rt = t.(1) <> "0" in
   let a = ints_of_hex t.(2) in
   let rd = rd_strict_arr a in
   match M.get_wifi_frame rd (z_of_int (Array.length a)) rt with
